@@ -14,16 +14,147 @@ from .c04 import counts, index_templates, slot_families
 
 
 def regex_is_whole_word(pattern: str, word: str) -> bool:
-    """pattern == \\bword\\b (re's own parser; nothing is matched)."""
+    return regex_word_set(pattern) == {word}
+
+
+WORDCH = set("abcdefghijklmnopqrstuvwxyzABCDEFGHIJKLMNOPQRSTUVWXYZ0123456789_")
+
+
+def regex_word_set(pattern: str):
+    """{words} when the pattern matches exactly those literal words as whole words (\\b or a negative look-around over
+    the identifier characters on both sides of every alternative); 'UNBOUNDED' when it matches literal words but at
+    least one alternative is not delimited on one side; None when the pattern is something else.  Uses re's own
+    parser - nothing is matched."""
     import re._parser as sp
 
-    items = list(sp.parse(pattern))
-    if len(items) != len(word) + 2:
+    try:
+        items = list(sp.parse(pattern))
+    except Exception:
+        return None
+
+    def is_boundary(it, side):
+        op, av_ = str(it[0]), it[1]
+        if op == "AT" and str(av_) == "AT_BOUNDARY":
+            return True
+        if op == "ASSERT_NOT" and av_[0] == (-1 if side == "l" else 1):
+            inner = list(av_[1])
+            if len(inner) == 1 and str(inner[0][0]) == "IN":
+                chars = set()
+                for k, v in inner[0][1]:
+                    if str(k) == "RANGE":
+                        chars |= {chr(c) for c in range(v[0], v[1] + 1)}
+                    elif str(k) == "LITERAL":
+                        chars.add(chr(v))
+                    elif str(k) == "CATEGORY" and str(v) == "CATEGORY_WORD":
+                        chars |= WORDCH
+                    else:
+                        return False
+                return WORDCH <= chars
+            if len(inner) == 1 and str(inner[0][0]) == "CATEGORY" and str(inner[0][1]) == "CATEGORY_WORD":
+                return True
         return False
-    if str(items[0][0]) != "AT" or str(items[0][1]) != "AT_BOUNDARY" or str(items[-1][0]) != "AT" or str(items[-1][1]) != "AT_BOUNDARY":
-        return False
-    lits = items[1:-1]
-    return all(str(op) == "LITERAL" and chr(av) == ch for (op, av), ch in zip(lits, word))
+
+    def words_of(seq):
+        """(words, left_bounded, right_bounded) of a sequence, or None"""
+        seq = list(seq)
+        lb = rb = False
+        if seq and is_boundary(seq[0], "l"):
+            lb, seq = True, seq[1:]
+        if seq and is_boundary(seq[-1], "r"):
+            rb, seq = True, seq[:-1]
+        if seq and all(str(op) == "LITERAL" for op, _ in seq):
+            return [("".join(chr(v) for _, v in seq), lb, rb)]
+        if len(seq) == 1 and str(seq[0][0]) == "SUBPATTERN":
+            inner = words_of(seq[0][1][3])
+            return None if inner is None else [(w, l or lb, r or rb) for w, l, r in inner]
+        if len(seq) == 1 and str(seq[0][0]) == "BRANCH":
+            out = []
+            for alt in seq[0][1][1]:
+                inner = words_of(alt)
+                if inner is None:
+                    return None
+                out.extend((w, l or lb, r or rb) for w, l, r in inner)
+            return out
+        return None
+
+    ws = words_of(items)
+    if ws is None:
+        return None
+    if any(not (l and r) for _, l, r in ws):
+        return "UNBOUNDED"
+    return {w for w, _, _ in ws}
+
+
+def bool_rewrites(ctx: Ctx, b2i):
+    """[(pattern text, {word: replacement} or None)] of the regular-expression substitutions bool_to_int applies,
+    or None when its value is not understood."""
+    from sa import av
+
+    from . import util
+
+    v = util.value_of(ctx, b2i)
+    if av.has_unk(v):
+        return None
+    out = []
+    A = util.AV(ctx)
+
+    def repl_map(rep, words):
+        if rep[0] == "c" and isinstance(rep[1], str):
+            return {w: rep[1] for w in words}
+        if rep[0] == "fn":
+            m = ("sym", "match")
+            got = A._apply_closure(rep[1], (m,), [], av.Frame(b2i, b2i.rel, {}, 0, 0))
+            if got[0] == "sub" and got[1][0] == "dict" and all(k[0] == "c" and x[0] == "c" for k, x in got[1][1]):
+                return {k[1]: x[1] for k, x in got[1][1]}
+            if got[0] == "if":
+                # "1" if m.group() == "true" else "0"
+                c = got[1]
+                if c[0] == "cmp" and c[1] == "==" and c[3][0] == "c" and got[2][0] == "c" and got[3][0] == "c":
+                    return {w: (got[2][1] if w == c[3][1] else got[3][1]) for w in words}
+        return None
+
+    def rec(x):
+        if not isinstance(x, tuple) or not x:
+            return
+        if x[0] == "call" and x[1] == "re.sub" and len(x[2]) >= 3:
+            pat, rep = x[2][0], x[2][1]
+            ws = regex_word_set(pat[1]) if pat[0] == "c" and isinstance(pat[1], str) else None
+            out.append((av.show(pat), ws, repl_map(rep, ws) if isinstance(ws, set) else None))
+        if x[0] == "mcall" and x[2] == "sub" and x[1][0] == "call" and x[1][1] == "re.compile" and x[1][2] and len(x[3]) >= 2:
+            pat, rep = x[1][2][0], x[3][0]
+            ws = regex_word_set(pat[1]) if pat[0] == "c" and isinstance(pat[1], str) else None
+            out.append((av.show(pat), ws, repl_map(rep, ws) if isinstance(ws, set) else None))
+        for y in x:
+            rec(y)
+
+    rec(v)
+    return out
+
+
+def check_bool_to_int(ctx: Ctx, rule: str, what: str):
+    sm = ctx.sm
+    b2i = sm.func("codegen/c.py", "bool_to_int")
+    subs = bool_rewrites(ctx, b2i)
+    key = b2i.key()
+    uses_replace = any(isinstance(c, ast.Call) and isinstance(c.func, ast.Attribute) and c.func.attr == "replace" for c in ast.walk(b2i.node))
+    if uses_replace:
+        ctx.fail(rule, key, f"bool_to_int rewrites with str.replace: {what}", b2i.where())
+        return
+    if subs is None or not subs:
+        ctx.undecided(rule, key, "how bool_to_int rewrites the boolean literals is not understood (no regular-expression substitution found)", b2i.where())
+        return
+    unbounded = [p for p, ws, _ in subs if ws == "UNBOUNDED"]
+    if unbounded:
+        ctx.fail(rule, key, f"bool_to_int substitutes with {unbounded}, which is not delimited by word boundaries on both sides of every alternative: {what}", b2i.where())
+        return
+    if any(ws is None or mp is None for _, ws, mp in subs):
+        ctx.undecided(rule, key, f"a substitution of bool_to_int is not of the form whole-word literal(s) -> constant ({[p for p, ws, mp in subs if ws is None or mp is None]})", b2i.where())
+        return
+    table = {}
+    for _, ws, mp in subs:
+        for w in ws:
+            table[w] = mp.get(w)
+    ctx.check(table == {"true": "1", "false": "0"}, rule, key, r"\btrue\b -> 1, \bfalse\b -> 0", f"bool_to_int rewrites {table}, expected exactly true -> 1 and false -> 0 as whole words: {what}", b2i.where())
 
 
 def run(ctx: Ctx):
@@ -58,35 +189,45 @@ def run(ctx: Ctx):
     ctx.check(okc, "R02.a", "c-printer::settings::contract", "contract=False (indexed assignments are plain statements)", "GotranCCodePrinter no longer sets contract=False: sympy would wrap indexed assignments in loops", init.where() if init else "")
 
     ctx.rule("R02.b", "math-function semantics: Mod follows the sign of the divisor (double fmod), conditionals are ternaries over every (condition, value) pair", floor=3)
+    from sa import av as _av2
+
+    from . import util as _util2
+
     md = M.method("c", "_print_Mod")
-    okm = False
-    got = None
-    if md is not None:
-        rets = [fstring_skeleton(n.value) for n in ast.walk(md.node) if isinstance(n, ast.Return)]
-        got = rets
-        binds = [n for n in ast.walk(md.node) if isinstance(n, ast.Assign) and isinstance(n.targets[0], (ast.Tuple, ast.List))]
-        if rets and binds and len(binds[0].targets[0].elts) == 2:
-            a, b = [e.id for e in binds[0].targets[0].elts]
-            okm = rets[0] == f"fmod(fmod({{{a}}}, {{{b}}}) + ({{{b}}}), {{{b}}})" and norm(binds[0].value) in ("[self._print(arg) for arg in expr.args]", "(self._print(arg) for arg in expr.args)")
-    ctx.check(okm, "R02.b", "c-printer::Mod::double-fmod", "fmod(fmod(a, b) + (b), b)", f"C printer: Mod is printed as {got}; it must be fmod(fmod(a, b) + (b), b) so that the result has the sign of the divisor for every sign combination", md.where() if md else "")
+    if md is None:
+        ctx.fail("R02.b", "c-printer::Mod::double-fmod", "the C printer has no _print_Mod of its own: sympy's fmod(a, b) has the sign of the dividend", "")
+    else:
+        mv = _util2.value_of(ctx, md)
+        if _av2.has_unk(mv) or not _av2._is_str(mv):
+            ctx.undecided("R02.b", "c-printer::Mod::double-fmod", f"what _print_Mod returns is not understood ({_av2.show(mv)[:100]})", md.where())
+        else:
+            flat = _av2.flatten(mv).replace(_av2.HO, "{").replace(_av2.HC, "}")
+            ops = r"<self\._print\(\$(\d+)\) for \$\1 in expr\.args>"
+            A_, B_ = r"\{" + ops + r"\[0\]\}", r"\{<self\._print\(\$\d+\) for \$\d+ in expr\.args>\[1\]\}"
+            okm = re.fullmatch(r"fmod\(fmod\(" + A_ + ", " + B_ + r"\) \+ \(" + B_ + r"\), " + B_ + r"\)", flat) is not None
+            ctx.check(okm, "R02.b", "c-printer::Mod::double-fmod", "fmod(fmod(a, b) + (b), b)", f"C printer: Mod is printed as {flat}; it must be fmod(fmod(a, b) + (b), b) of the printed operands so that the result has the sign of the divisor for every sign combination", md.where())
     pw = M.method("c", "_print_Piecewise")
-    okp = pw is not None and any(isinstance(n, ast.Assign) and norm(n.value) == "bool_to_int(super()._print_Piecewise(expr))" for n in ast.walk(pw.node))
-    ctx.check(okp, "R02.b", "c-printer::Piecewise::ternary", "sympy's ternary chain, booleans rewritten to 0/1", "C printer: a Piecewise expression is not printed as bool_to_int(super()._print_Piecewise(expr))", pw.where() if pw else "")
-    # Assignment-Piecewise branch: (c) ? e : ... ;
-    frs = pm.fragments(pw) if pw else []
-    ctx.check("({super()._print(arg[1])}) ? " in frs and " : " in frs and ";" in frs, "R02.b", "c-printer::Piecewise::assignment-form", "(cond) ? value : ... ;", "C printer: the assignment form of a Piecewise is not a ternary chain", pw.where() if pw else "")
+    if pw is None:
+        ctx.fail("R02.b", "c-printer::Piecewise::ternary", "the C printer has no _print_Piecewise of its own (booleans in conditions are not rewritten to 0/1)", "")
+    else:
+        pv = _util2.value_of(ctx, pw)
+        from .c03 import _branches
+
+        brs = _branches(pv)
+        plain = [x for c, x in brs if not any("Assignment" in _av2.show(k) and k[0] != "not" for k in c)]
+        okp = bool(plain) and all(_av2.show(x) == "bool_to_int(super()._print_Piecewise(expr))" for x in plain if x[0] != "raise")
+        if not okp and _av2.has_unk(pv) and not plain:
+            ctx.undecided("R02.b", "c-printer::Piecewise::ternary", "the structure of _print_Piecewise is not understood", pw.where())
+        else:
+            ctx.check(okp, "R02.b", "c-printer::Piecewise::ternary", "sympy's ternary chain, booleans rewritten to 0/1", f"C printer: a Piecewise expression is printed as {[_av2.show(x)[:80] for x in plain]}, not as bool_to_int(super()._print_Piecewise(expr))", pw.where())
+        # Assignment-Piecewise branch: lhs = (c) ? e : ... ;
+        helpers = [g_ for g_ in sm.funcs_in("codegen/c.py") if g_.cls == pw.cls and any(isinstance(c_, ast.Call) and isinstance(c_.func, ast.Attribute) and c_.func.attr == g_.name and norm(c_.func.value) == "self" for c_ in ast.walk(pw.node))]
+        frs = "\x00".join(fr_ for g_ in [pw] + helpers for fr_ in pm.fragments(g_))
+        ctx.check(") ? " in frs and " : " in frs and ";" in frs, "R02.b", "c-printer::Piecewise::assignment-form", "(cond) ? value : ... ;", "C printer: the assignment form of a Piecewise is not a ternary chain", pw.where())
 
     # ---- R02.c post-processing -----------------------------------------------------------------------
     ctx.rule("R02.c", "post-processing of printed code only replaces whole words; no str.replace with an identifier-like needle on emitted text", floor=2)
-    b2i = sm.func("codegen/c.py", "bool_to_int")
-    subs = [c for c in ast.walk(b2i.node) if isinstance(c, ast.Call) and (dotted(c.func) or "") == "re.sub"]
-    table = {}
-    for c in subs:
-        pat, rep = const_str(c.args[0]), const_str(c.args[1])
-        table[pat] = rep
-    ok = len(table) == 2 and all(pat is not None for pat in table)
-    okw = ok and any(regex_is_whole_word(p, "true") and r == "1" for p, r in table.items()) and any(regex_is_whole_word(p, "false") and r == "0" for p, r in table.items())
-    ctx.check(okw, "R02.c", b2i.key(), r"\btrue\b -> 1, \bfalse\b -> 0", f"bool_to_int rewrites {table}: identifiers that merely contain (or start / end with) `true` or `false` would be corrupted; each literal must be matched as a whole word", b2i.where())
+    check_bool_to_int(ctx, "R02.c", "identifiers that merely contain (or start / end with) `true` or `false` would be corrupted; each literal must be matched as a whole word")
     reps = []
     for short in ("codegen/c.py", "codegen/base.py", "templates/c.py", "cli/gotran2c.py"):
         for f in sm.funcs_in(short):
